@@ -6,4 +6,6 @@
 EXTENDS Cache
 CONSTANT Depth
 Bound == TLCGet("level") <= Depth
+\* (simulation only) a render that raises ends the history: let it happen late, so that histories stay long
+RaiseLate == (last'.op = "raised") => TLCGet("level") >= 14
 =============================================================================
